@@ -249,6 +249,9 @@ class Aspire:
         if checkpoint_path is None and defaults:
             checkpoint_path = defaults["path"]
             checkpoint_save_config = defaults["save_config"]
+        elif defaults and str(checkpoint_path) != str(defaults["path"]):
+            # Another file: the bookkeeping of the context does not apply
+            defaults = None
         saved_config = (
             defaults.get("saved_config", False) if defaults else False
         )
@@ -488,6 +491,9 @@ class Aspire:
             checkpoint_path = defaults["path"]
             checkpoint_every = defaults["every"]
             checkpoint_save_config = defaults["save_config"]
+        elif defaults and str(checkpoint_path) != str(defaults["path"]):
+            # Another file: the bookkeeping of the context does not apply
+            defaults = None
         # The flow saved by an earlier call only counts if no fit happened since
         # (a refit may have been made in a nested context or with another path)
         n_fits = getattr(self, "_n_fits", 0)
